@@ -53,6 +53,20 @@ CLAIMED = {
    "A sample of pairs goes through `atlas schema apply --auto-approve` + `atlas schema diff` on database files with --to hcl / sql (dev-url) / url.",
    "Tables are empty (data is C05). Type changes inside one Atlas type class, column order, quoting of defaults on columns with affinity, FK/check names are not demanded. Inline UNIQUE constraints are not generated here (see DESIGN section 5). Plan-time refusals are counted as rejected.",
    "4/C01"),
+ "C03": ("exploration",
+   "rapid PBT closing the loop database -> export -> database on a real SQLite engine (round-trip oracle + independent PRAGMA catalog comparison), sample through the real CLI",
+   "Databases are created on in-memory SQLite engines from the harness model by native DDL (inline constraints, double-quoted names), atlas-style DDL or Atlas itself. Checked: two inspections marshal to identical HCL bytes; "
+   "EvalHCLBytes(MarshalHCL(inspect)) has an empty CLI-mode diff against the database in both directions; the dump-mode SQL export (replica of cmdlog.sqlInspect: PlanModeDump + DefaultFormatter), scanned with the SQLite statement scanner and executed on an empty engine, "
+   "yields a database whose independent catalog equals the original and whose Atlas diffs are empty both ways. The CLI tier repeats the loop with `atlas schema inspect` (HCL and --format '{{ sql . }}') and `atlas schema diff` on database files.",
+   "Identifiers outside \\w+ are generated in a separate sub-check because of the known finding C03/nonword-identifier-recovery. Inline UNIQUE constraints are not generated (DESIGN section 5). Re-marshal byte equality belongs to C15 and is not demanded here.",
+   "4/C03"),
+ "C05": ("exploration",
+   "rapid PBT with generated rows on a real SQLite engine; before/after row comparison keyed by an untouched key column (invariant over the plan's effect on data)",
+   "Populated databases (0-6 rows per table, type-appropriate values, NULLs, distinct values under keys) are migrated to 1-4 random elementary edits of their schema through the CLI's diff/apply path inside a transaction. "
+   "An independent connection compares before and after: same key set per surviving table; every column present before and after with the same declared type keeps quote(value) in every row, except the documented NULL -> new DEFAULT under a column that became NOT NULL; "
+   "tables outside the change set keep their stored CREATE text and rows including rowid. Both the in-place ALTER path and the new_<table> rebuild path are measured classes.",
+   "Data-caused engine failures (unique/not-null/check/FK violations, STRICT type mismatches) are counted as rejected (13% in quick) and not judged; foreign-key child columns are populated with NULL. Values of columns whose declared type changed are outside the property.",
+   "4/C05"),
 }
 PENDING_REASON = "check not built yet in this session (planned in DESIGN.md section 4; will be claimed once its quick check is green and sensitivity-tested)"
 
